@@ -41,6 +41,53 @@ CHECKS["C03"] = {
 }
 
 
+def _statemc(props_hint, tier, asan_too=True, raw_too=False, limits=False):
+    """shared statemc job sets (the same transitions carry every monitor; each check reports its own property)"""
+    q = tier == "quick"
+    jobs = [
+        J("statemc", "plain", ["--alphabet", "micro", "--depth", "4" if q else "5", "--cfg", "0"]),
+        J("statemc", "plain", ["--alphabet", "macro", "--depth", "5" if q else "7", "--cfg", "0"]),
+        J("statemc", "plain", ["--alphabet", "micro", "--depth", "3" if q else "4", "--cfg", "0", "--devdepth", "3" if q else "4", "--ndev", "1"]),
+        J("statemc", "plain", ["--alphabet", "micro", "--depth", "4" if q else "5", "--cfg", "1"]),
+        J("statemc", "plain", ["--alphabet", "macro", "--depth", "5" if q else "6", "--cfg", "1"]),
+    ]
+    if limits:
+        jobs += [J("statemc", "plain", ["--alphabet", "micro", "--depth", "4" if q else "5", "--cfg", "2"]),
+                 J("statemc", "plain", ["--alphabet", "micro", "--depth", "3" if q else "4", "--cfg", "5"])]
+    if raw_too:
+        jobs += [J("statemc", "plain", ["--alphabet", "micro", "--depth", "3" if q else "4", "--cfg", "0", "--raw", "1"]),
+                 J("statemc", "plain", ["--alphabet", "macro", "--depth", "4" if q else "5", "--cfg", "1", "--raw", "1"])]
+    if asan_too:
+        jobs += [J("statemc", "asan", ["--alphabet", "micro", "--depth", "3" if q else "4", "--cfg", "0", "--devdepth", "2" if q else "3"]),
+                 J("statemc", "asan", ["--alphabet", "macro", "--depth", "4" if q else "5", "--cfg", "1"])]
+    if not q:
+        jobs += [J("statemc", "plain", ["--alphabet", "micro", "--depth", "4", "--cfg", str(c)]) for c in (3, 4)]
+    return jobs
+
+
+_STATEMC_RULE = ("E2 statemc: breadth-first search over event histories (request/response tokens of the micro or macro alphabet, stream gaps, close, "
+                 "request-close, tx destroy, tx_freed; optionally one callback deviation per history), each history replayed on a fresh real parser, states "
+                 "de-duplicated by a 128-bit hash of the exact canonical parser state; every transition runs all monitors and ends with a full teardown; "
+                 "states = sum of per-shard distinct canonical states (an over-count of globally distinct ones), transitions = (state,event) pairs executed")
+
+CHECKS["C05"] = {
+    "level": "model_checking",
+    "technique": "explicit-state BFS over token histories of the real coupled request/response parser with a lifecycle monitor automaton on every callback",
+    "level_text": "Every event history up to the stated depth over the micro (line-sized, incl. malformed and half tokens) and macro (message-sized) alphabets is executed on the "
+                  "real parser; the M-life monitor (per-side callback rank never decreases except the interim-100 restart, progress never moves back, each COMPLETE at most "
+                  "once, TRANSACTION_COMPLETE only with both sides complete, nothing after it) is evaluated on every callback of every transition. Depth-bounded exhaustive, "
+                  "BFS-minimal counterexamples; deeper damaged histories come from the C03/C04/C16 workloads which carry the same monitor.",
+    "level_note": "Executions in which a callback answers STOP/ERROR or destroys a transaction are not judged (the statement quantifies over inputs, chunkings and interleavings). "
+                  "Raw *_HEADER_DATA/*_TRAILER_DATA callbacks and the end-of-body marker are only required to precede the side's COMPLETE. Token alphabets in mc/statemc.c.",
+    "design_ref": "DESIGN.md §5 E2, §6 C05",
+    "rule": _STATEMC_RULE,
+    "bounds": {"quick": "micro depth 4 (2 cfgs), macro depth 5 (2 cfgs), micro depth 3 with one callback deviation", "thorough": "micro depth 5, macro depth 7/6, deviations to depth 4, 4 cfgs"},
+    "mc_explanation": "states/transitions are those of the implementation itself (no model): the transition function is htp_connp_req_data/res_data/close on a replayed history",
+    "assumptions": ["token alphabets of mc/statemc.c", "exact canonical state (DESIGN §4.3)"],
+    "jobs": lambda tier: _statemc("C05", tier, asan_too=False),
+}
+
+
 def manifest():
     import json, os
     root = os.path.dirname(os.path.dirname(os.path.abspath(__file__)))
@@ -71,6 +118,7 @@ def manifest():
 
 
 ENGINES = [
+    {"name": "statemc", "path": "mc/statemc.c", "serves_properties": ["C01", "C05", "C09", "C10"], "kind_free_text": "E2: explicit-state BFS over token histories of the real parser, exact canonical state hashing"},
     {"name": "cutmc", "path": "mc/cutmc.c", "serves_properties": ["C02", "C03"], "kind_free_text": "E1: stateless deviation-bounded explorer of segmentation / generated grammar on the real code"},
 ]
 
